@@ -4,7 +4,7 @@
 From Coq Require Import String.
 From Coq Require Import ZArith SpecFloat.
 Require Import OV.Base.Bytes OV.Base.Py OV.Base.PyInt OV.Base.Str OV.Base.Regex OV.Base.PyFloat.
-Require Import OV.Gen.C10_Units OV.Model.C10.
+Require Import OV.Model.C10_Regex OV.Gen.C10_Units OV.Model.C10.
 Require Import OV.Proofs.C10_Regex OV.Proofs.C10_Form OV.Proofs.C10_Float.
 Open Scope Z_scope.
 
@@ -137,13 +137,13 @@ Definition spec_eval (u nm pre un : str) (ri : bool) : res num :=
   end.
 
 Theorem string_to_bytes_eval u prefixes : In (u, prefixes) spec_systems ->
-  forall num pre un nl ri,
-  numform num -> (pre = [] \/ In pre prefixes) -> In un units3 -> (nl = [] \/ nl = [10%N]) ->
-  string_to_bytes (num ++ pre ++ un ++ nl) u ri = spec_eval u num pre un ri.
+  forall num pre un ri,
+  numform num -> (pre = [] \/ In pre prefixes) -> In un units3 ->
+  string_to_bytes (num ++ pre ++ un) u ri = spec_eval u num pre un ri.
 Proof.
-  intros HS num pre un nl ri Hn Hp Hu Hl.
-  destruct (system_facts u prefixes HS) as [base [rx [L [OKr UQ]]]].
-  destruct (unit_match_groups rx prefixes OKr UQ num pre un nl Hn Hp Hu Hl) as [e [g [M [G1 [G2 G3]]]]].
+  intros HS num pre un ri Hn Hp Hu.
+  destruct (system_facts u prefixes HS) as [base [[rx eos] [L [OKr UQ]]]].
+  destruct (unit_match_groups rx eos prefixes OKr UQ num pre un Hn Hp Hu) as [e [g [M [G1 [G2 G3]]]]].
   unfold string_to_bytes, spec_eval. rewrite L, M, G1, G3.
   destruct (py_float_of_str num) as [m|]; [|reflexivity].
   change (is_bit_unit (Some un)) with (is_bit un).
@@ -151,19 +151,19 @@ Proof.
   destruct pre as [|c p'].
   - rewrite G2. reflexivity.
   - rewrite G2. destruct Hp as [Hp|Hp]; [discriminate|].
-    destruct (table_facts u prefixes base rx (c :: p') HS L Hp) as [T1 [T2 [T3 _]]].
+    destruct (table_facts u prefixes base (rx, eos) (c :: p') HS L Hp) as [T1 [T2 [T3 _]]].
     cbv zeta. unfold str, bytes in *. rewrite T1, T3. unfold py_pow. replace (spec_exp (c :: p') <? 0) with false by lia.
     cbn [bind]. reflexivity.
 Qed.
 
 (* a well-formed text always yields a float when return_int is off *)
 Theorem admitted_returns_float u prefixes : In (u, prefixes) spec_systems ->
-  forall num pre un nl,
-  numform num -> (pre = [] \/ In pre prefixes) -> In un units3 -> (nl = [] \/ nl = [10%N]) ->
-  exists r, string_to_bytes (num ++ pre ++ un ++ nl) u false = Ok (NFloat r).
+  forall num pre un,
+  numform num -> (pre = [] \/ In pre prefixes) -> In un units3 ->
+  exists r, string_to_bytes (num ++ pre ++ un) u false = Ok (NFloat r).
 Proof.
-  intros HS num pre un nl Hn Hp Hu Hl.
-  rewrite (string_to_bytes_eval u prefixes HS num pre un nl false Hn Hp Hu Hl).
+  intros HS num pre un Hn Hp Hu.
+  rewrite (string_to_bytes_eval u prefixes HS num pre un false Hn Hp Hu).
   unfold spec_eval.
   destruct (py_float_of_str num) as [m|] eqn:E; [|exfalso; exact (float_of_numform_total num Hn E)].
   assert (D : exists m', (if is_bit un then f_div_int m 8 else Ok m) = Ok m').
@@ -178,16 +178,24 @@ Qed.
 
 (* ---------- return_int is the ceiling of the float result ---------- *)
 
+(* int(math.ceil(r)), an OverflowError (r infinite) turned into ValueError *)
+Definition ceil_or_ValueError (r : float64) : res num :=
+  match ceil_to_Z r with
+  | Ok z => Ok (NInt z)
+  | Exn OverflowError => Exn ValueError
+  | Exn e => Exn e
+  end.
+
 Theorem return_int_is_ceil t u :
   string_to_bytes t u true =
   match string_to_bytes t u false with
-  | Ok (NFloat r) => (do z <- ceil_to_Z r; Ok (NInt z))
+  | Ok (NFloat r) => ceil_or_ValueError r
   | other => other
   end.
 Proof.
   unfold string_to_bytes.
   destruct (lookup u unit_system_info) as [[base rx]|]; [|reflexivity].
-  destruct (re_match rx t) as [[e g]|]; [|reflexivity].
+  destruct (rz_match rx t) as [[e g]|]; [|reflexivity].
   destruct (group_text t g 1) as [g1|]; [|reflexivity].
   destruct (py_float_of_str g1) as [m|]; [|reflexivity].
   destruct (if is_bit_unit (group_text t g 3) then f_div_int m 8 else Ok m) as [m'|ex]; cbn [bind]; [|reflexivity].
@@ -195,6 +203,11 @@ Proof.
   destruct (lookup (c :: p') unit_prefix_exponent) as [ex|]; [|reflexivity].
   destruct (py_pow _ ex) as [pw|]; cbn [bind]; [|reflexivity].
   destruct (f_mul_int m' pw) as [r|]; cbn [bind]; reflexivity.
+Qed.
+
+Lemma ceil_or_ValueError_exn r e : ceil_or_ValueError r = Exn e -> e = ValueError.
+Proof.
+  unfold ceil_or_ValueError. destruct r as [s|s| |s m ex]; cbn; intros H; try discriminate; injection H as <-; reflexivity.
 Qed.
 
 (* ceil_to_Z is the mathematical ceiling of the float's value (-1)^s * m * 2^e *)
@@ -212,68 +225,46 @@ Proof.
   nia.
 Qed.
 
-(* ---------- only ValueError (and the overflow zone, finding K14) ---------- *)
+(* ---------- only ValueError ---------- *)
 
-(* the float result of the text is infinite *)
-Definition overflow_zone (t u : str) : bool :=
-  match string_to_bytes t u false with
-  | Ok (NFloat (S754_infinity _)) => true
-  | _ => false
-  end.
-
-Theorem only_ValueError_or_overflow t u ri e :
-  string_to_bytes t u ri = Exn e ->
-  e = ValueError \/ (e = OverflowError /\ ri = true /\ overflow_zone t u = true).
+Theorem only_ValueError t u ri e : string_to_bytes t u ri = Exn e -> e = ValueError.
 Proof.
   intros H.
   destruct (lookup u unit_system_info) as [[base rx]|] eqn:L.
-  2:{ unfold string_to_bytes in H. rewrite L in H. injection H as <-. auto. }
+  2:{ unfold string_to_bytes in H. rewrite L in H. injection H as <-. reflexivity. }
   destruct (known_system u base rx L) as [prefixes HS].
   destruct (system_facts u prefixes HS) as [base' [rx' [L' [OKr UQ]]]].
   rewrite L in L'. injection L' as <- <-.
-  destruct (re_matchb rx t) eqn:M.
-  2:{ unfold string_to_bytes in H. rewrite L in H. unfold re_matchb in M.
-      destruct (re_match rx t) as [[? ?]|]; [discriminate|]. injection H as <-. auto. }
-  apply (unit_match_iff_form rx prefixes OKr) in M.
-  destruct M as [num [pre [un [nl [-> [Hn [Hp [Hu Hl]]]]]]]].
-  destruct (admitted_returns_float u prefixes HS num pre un nl Hn Hp Hu Hl) as [r Hr].
-  unfold overflow_zone. rewrite Hr.
+  destruct (rz_matchb rx t) eqn:M.
+  2:{ unfold string_to_bytes in H. rewrite L in H. unfold rz_matchb in M.
+      destruct (rz_match rx t) as [[? ?]|]; [discriminate|]. injection H as <-. reflexivity. }
+  destruct rx as [rx eos].
+  apply (unit_match_iff_form rx eos prefixes OKr) in M.
+  destruct M as [num [pre [un [-> [Hn [Hp Hu]]]]]].
+  destruct (admitted_returns_float u prefixes HS num pre un Hn Hp Hu) as [r Hr].
   destruct ri.
-  - rewrite return_int_is_ceil, Hr in H.
-    destruct r as [s|s| |s m ex]; cbn in H; try discriminate; injection H as <-; auto.
+  - rewrite return_int_is_ceil, Hr in H. apply (ceil_or_ValueError_exn r e H).
   - rewrite Hr in H. discriminate.
 Qed.
 
-(* the full statement (ValueError and nothing else) is refuted by a 400-digit magnitude *)
-Definition only_ValueError_full_statement : Prop :=
-  forall t u ri e, string_to_bytes t u ri = Exn e -> e = ValueError.
-
+(* a quantity beyond binary64: the float evaluation is inf (the IEEE evaluation); with return_int the
+   OverflowError of math.ceil(inf) is turned into ValueError *)
 Definition overflow_witness : str := repeatN 57%N 400 ++ lit "B".
-
-Lemma overflow_witness_raises :
-  string_to_bytes overflow_witness (lit "IEC") true = Exn OverflowError.
+Example overflow_witness_float :
+  string_to_bytes overflow_witness (lit "IEC") false = Ok (NFloat (S754_infinity false)).
 Proof. vm_compute. reflexivity. Qed.
-
-Theorem only_ValueError_refuted : ~ only_ValueError_full_statement.
-Proof.
-  intros F. specialize (F _ _ _ _ overflow_witness_raises). discriminate.
-Qed.
-
-(* outside the zone the statement holds *)
-Corollary only_ValueError_outside_zone t u ri e :
-  overflow_zone t u = false -> string_to_bytes t u ri = Exn e -> e = ValueError.
-Proof.
-  intros Z H. destruct (only_ValueError_or_overflow t u ri e H) as [->|[_ [_ Z']]]; [reflexivity|congruence].
-Qed.
+Example overflow_witness_int :
+  string_to_bytes overflow_witness (lit "IEC") true = Exn ValueError.
+Proof. vm_compute. reflexivity. Qed.
 
 (* ---------- admitted <-> form; unknown systems; foreign prefixes ---------- *)
 
 Theorem admitted_iff_form u prefixes base rx :
   In (u, prefixes) spec_systems -> lookup u unit_system_info = Some (base, rx) ->
-  forall t, re_matchb rx t = true <-> form prefixes t.
+  forall t, rz_matchb rx t = true <-> form prefixes t.
 Proof.
   intros HS L t. destruct (system_facts u prefixes HS) as [base' [rx' [L' [OKr _]]]].
-  rewrite L in L'. injection L' as <- <-. apply unit_match_iff_form. exact OKr.
+  rewrite L in L'. injection L' as <- <-. destruct rx as [rx eos]. apply unit_match_iff_form. exact OKr.
 Qed.
 
 Theorem system_known_iff u :
@@ -297,7 +288,7 @@ Proof.
   destruct (lookup u unit_system_info) as [[base rx]|] eqn:L; [|reflexivity].
   destruct (known_system u base rx L) as [prefixes HS].
   pose proof (admitted_iff_form u prefixes base rx HS L t) as A.
-  unfold re_matchb in A. destruct (re_match rx t) as [[e g]|]; [|reflexivity].
+  unfold rz_matchb in A. destruct (rz_match rx t) as [[e g]|]; [|reflexivity].
   exfalso. apply (NF prefixes HS). apply A. reflexivity.
 Qed.
 
@@ -305,7 +296,7 @@ Qed.
 
 Theorem prefix_table_total u base rx t e g p :
   lookup u unit_system_info = Some (base, rx) ->
-  re_match rx t = Some (e, g) -> group_text t g 2 = Some p -> p <> [] ->
+  rz_match rx t = Some (e, g) -> group_text t g 2 = Some p -> p <> [] ->
   lookup p unit_prefix_exponent = Some (spec_exp p) /\
   effective_base u base (Some p) = Some (spec_base u p) /\
   exists x, float_of_Z (spec_base u p ^ spec_exp p) = Some x /\ f_is_finite x = true.
@@ -315,13 +306,14 @@ Proof.
   destruct (system_facts u prefixes HS) as [base' [rx' [L' [OKr UQ]]]].
   rewrite L in L'. injection L' as <- <-.
   assert (F : form prefixes t).
-  { apply (unit_match_iff_form rx prefixes OKr). unfold re_matchb. rewrite M. reflexivity. }
-  destruct F as [num [pre [un [nl [-> [Hn [Hp [Hu Hl]]]]]]]].
-  destruct (unit_match_groups rx prefixes OKr UQ num pre un nl Hn Hp Hu Hl) as [e' [g' [M' [_ [G2 _]]]]].
+  { destruct rx as [rx eos]. apply (unit_match_iff_form rx eos prefixes OKr). unfold rz_matchb. rewrite M. reflexivity. }
+  destruct F as [num [pre [un [-> [Hn [Hp Hu]]]]]].
+  destruct rx as [rx eos].
+  destruct (unit_match_groups rx eos prefixes OKr UQ num pre un Hn Hp Hu) as [e' [g' [M' [_ [G2 _]]]]].
   rewrite M in M'. injection M' as <- <-. rewrite G in G2.
   destruct pre as [|c p']; [discriminate|]. injection G2 as ->.
   destruct Hp as [Hp|Hp]; [discriminate|].
-  destruct (table_facts u prefixes base rx (c :: p') HS L Hp) as [T1 [_ [T3 [T4 _]]]]. auto.
+  destruct (table_facts u prefixes base (rx, eos) (c :: p') HS L Hp) as [T1 [_ [T3 [T4 _]]]]. auto.
 Qed.
 
 
@@ -353,26 +345,26 @@ Qed.
 Lemma repr53b_xO p : repr53b p~0 = repr53b p.
 Proof. unfold repr53b. cbn [odd_part]. destruct (odd_part p). reflexivity. Qed.
 
-Definition exact_hyps (u : str) (prefixes : list str) (sg ds pre un nl : str) (n F a : positive) : Prop :=
+Definition exact_hyps (u : str) (prefixes : list str) (sg ds pre un : str) (n F a : positive) : Prop :=
   In (u, prefixes) spec_systems /\
   (sg = [] \/ sg = [43%N] \/ sg = [45%N]) /\
   forallb c_digit ds = true /\ ds <> [] /\
-  (pre = [] \/ In pre prefixes) /\ In un units3 /\ (nl = [] \/ nl = [10%N]) /\
+  (pre = [] \/ In pre prefixes) /\ In un units3 /\
   dvalN ds 0 = Npos n /\
   Zpos F = match pre with [] => 1 | _ => spec_base u pre ^ spec_exp pre end /\
   repr53b F = true /\
   Zpos n * Zpos F = Zpos a * (if is_bit un then 8 else 1) /\
   Zpos a < 2 ^ 53.
 
-Lemma ex_prod u prefixes sg ds pre un nl n F a (HH : exact_hyps u prefixes sg ds pre un nl n F a) : Zpos n * Zpos F = Zpos a * 2 ^ (if is_bit un then 3 else 0).
+Lemma ex_prod u prefixes sg ds pre un n F a (HH : exact_hyps u prefixes sg ds pre un n F a) : Zpos n * Zpos F = Zpos a * 2 ^ (if is_bit un then 3 else 0).
 Proof.
-  destruct HH as [_ [_ [_ [_ [_ [_ [_ [_ [_ [_ [Hprod _]]]]]]]]]]].
+  destruct HH as [_ [_ [_ [_ [_ [_ [_ [_ [_ [Hprod _]]]]]]]]]].
   rewrite Hprod. destruct (is_bit un); reflexivity.
 Qed.
 
-Lemma ex_F_ge u prefixes sg ds pre un nl n F a (HH : exact_hyps u prefixes sg ds pre un nl n F a) : pre <> [] -> 8 <= Zpos F.
+Lemma ex_F_ge u prefixes sg ds pre un n F a (HH : exact_hyps u prefixes sg ds pre un n F a) : pre <> [] -> 8 <= Zpos F.
 Proof.
-  pose proof HH as HH0. destruct HH as [HS [Hsg [Hds [Hne [Hpre [Hun [Hnl [Hn [HF [HrF [Hprod Ha]]]]]]]]]]].
+  pose proof HH as HH0. destruct HH as [HS [Hsg [Hds [Hne [Hpre [Hun [Hn [HF [HrF [Hprod Ha]]]]]]]]]].
   set (neg := beq sg [45%N]) in *. set (k := if is_bit un then 3 else 0) in *.
   intros Hp. destruct pre as [|c p'] eqn:E; [congruence|]. rewrite HF.
   destruct Hpre as [Hq|Hq]; [discriminate|].
@@ -380,36 +372,36 @@ Proof.
   destruct (table_facts u prefixes base rx (c :: p') HS L Hq) as [_ [_ [_ [_ T]]]]. exact T.
 Qed.
 
-Lemma ex_bounds u prefixes sg ds pre un nl n F a (HH : exact_hyps u prefixes sg ds pre un nl n F a) : Zpos n < 2 ^ 56 /\ Zpos F < 2 ^ 56.
+Lemma ex_bounds u prefixes sg ds pre un n F a (HH : exact_hyps u prefixes sg ds pre un n F a) : Zpos n < 2 ^ 56 /\ Zpos F < 2 ^ 56.
 Proof.
-  pose proof HH as HH0. destruct HH as [HS [Hsg [Hds [Hne [Hpre [Hun [Hnl [Hn [HF [HrF [Hprod Ha]]]]]]]]]]].
+  pose proof HH as HH0. destruct HH as [HS [Hsg [Hds [Hne [Hpre [Hun [Hn [HF [HrF [Hprod Ha]]]]]]]]]].
   set (neg := beq sg [45%N]) in *. set (k := if is_bit un then 3 else 0) in *.
-  pose proof (ex_prod _ _ _ _ _ _ _ _ _ _ HH0) as P. change (if is_bit un then 3 else 0) with k in P. assert (2 ^ k <= 8) by (unfold k; destruct (is_bit un); cbn; lia).
+  pose proof (ex_prod _ _ _ _ _ _ _ _ _ HH0) as P. change (if is_bit un then 3 else 0) with k in P. assert (2 ^ k <= 8) by (unfold k; destruct (is_bit un); cbn; lia).
   assert (0 < 2 ^ k) by (unfold k; destruct (is_bit un); cbn; lia).
   change (2 ^ 56) with (2 ^ 53 * 8). set (X := 2 ^ k) in *. clearbody X.
   assert (Zpos n <= Zpos n * Zpos F) by nia. assert (Zpos F <= Zpos n * Zpos F) by nia.
   assert (Zpos a * X <= Zpos a * 8) by nia. split; lia.
 Qed.
 
-Lemma ex_repr_n u prefixes sg ds pre un nl n F a (HH : exact_hyps u prefixes sg ds pre un nl n F a) : repr53b n = true.
+Lemma ex_repr_n u prefixes sg ds pre un n F a (HH : exact_hyps u prefixes sg ds pre un n F a) : repr53b n = true.
 Proof.
-  pose proof HH as HH0. destruct HH as [HS [Hsg [Hds [Hne [Hpre [Hun [Hnl [Hn [HF [HrF [Hprod Ha]]]]]]]]]]].
+  pose proof HH as HH0. destruct HH as [HS [Hsg [Hds [Hne [Hpre [Hun [Hn [HF [HrF [Hprod Ha]]]]]]]]]].
   set (neg := beq sg [45%N]) in *. set (k := if is_bit un then 3 else 0) in *.
   destruct pre as [|c p'] eqn:E.
-  - assert (F1 : Zpos F = 1) by exact HF. pose proof (ex_prod _ _ _ _ _ _ _ _ _ _ HH0) as P. change (if is_bit un then 3 else 0) with k in P. rewrite F1 in P. unfold k in P.
+  - assert (F1 : Zpos F = 1) by exact HF. pose proof (ex_prod _ _ _ _ _ _ _ _ _ HH0) as P. change (if is_bit un then 3 else 0) with k in P. rewrite F1 in P. unfold k in P.
     destruct (is_bit un).
     + assert (En : n = (a~0~0~0)%positive) by (apply Pos2Z.inj; change (Z.pos a~0~0~0) with (8 * Z.pos a); change (2 ^ 3) with 8 in P; lia).
       rewrite En, !repr53b_xO. apply repr53b_of_lt. exact Ha.
     + apply repr53b_of_lt. change (2 ^ 0) with 1 in P. lia.
-  - assert (G : 8 <= Zpos F) by (apply (ex_F_ge _ _ _ _ _ _ _ _ _ _ HH0); discriminate).
-    apply repr53b_of_lt. pose proof (ex_prod _ _ _ _ _ _ _ _ _ _ HH0) as P. change (if is_bit un then 3 else 0) with k in P.
+  - assert (G : 8 <= Zpos F) by (apply (ex_F_ge _ _ _ _ _ _ _ _ _ HH0); discriminate).
+    apply repr53b_of_lt. pose proof (ex_prod _ _ _ _ _ _ _ _ _ HH0) as P. change (if is_bit un then 3 else 0) with k in P.
     assert (2 ^ k <= 8) by (unfold k; destruct (is_bit un); cbn; lia). nia.
 Qed.
 
 (* float(number) *)
-Lemma ex_magnitude u prefixes sg ds pre un nl n F a (HH : exact_hyps u prefixes sg ds pre un nl n F a) : py_float_of_str (sg ++ ds) = Some (normal (beq sg [45%N]) (fst (odd_part n)) (snd (odd_part n))).
+Lemma ex_magnitude u prefixes sg ds pre un n F a (HH : exact_hyps u prefixes sg ds pre un n F a) : py_float_of_str (sg ++ ds) = Some (normal (beq sg [45%N]) (fst (odd_part n)) (snd (odd_part n))).
 Proof.
-  pose proof HH as HH0. destruct HH as [HS [Hsg [Hds [Hne [Hpre [Hun [Hnl [Hn [HF [HrF [Hprod Ha]]]]]]]]]]].
+  pose proof HH as HH0. destruct HH as [HS [Hsg [Hds [Hne [Hpre [Hun [Hn [HF [HrF [Hprod Ha]]]]]]]]]].
   set (neg := beq sg [45%N]) in *. set (k := if is_bit un then 3 else 0) in *.
   rewrite (float_of_signed_ascii_digits sg ds Hsg Hds Hne). fold neg. rewrite Hn.
   unfold f_of_decimal. replace (400 <=? 0) with false by reflexivity.
@@ -417,20 +409,20 @@ Proof.
   replace (0 <=? 0) with true by reflexivity.
   change (Z.to_pos (10 ^ 0)) with 1%positive. rewrite Pos.mul_1_r. unfold f_round. f_equal.
   change fprec with 53. change femax with 1024.
-  apply round_odd_part; [exact (ex_repr_n _ _ _ _ _ _ _ _ _ _ HH0)|]. apply dig_le_of_lt; [lia|]. destruct (ex_bounds _ _ _ _ _ _ _ _ _ _ HH0). lia.
+  apply round_odd_part; [exact (ex_repr_n _ _ _ _ _ _ _ _ _ HH0)|]. apply dig_le_of_lt; [lia|]. destruct (ex_bounds _ _ _ _ _ _ _ _ _ HH0). lia.
 Qed.
 
-Lemma ex_result u prefixes sg ds pre un nl n F a (HH : exact_hyps u prefixes sg ds pre un nl n F a) :
+Lemma ex_result u prefixes sg ds pre un n F a (HH : exact_hyps u prefixes sg ds pre un n F a) :
   exists r, spec_eval u (sg ++ ds) pre un false = Ok (NFloat r) /\ r = float_of_small_int (beq sg [45%N]) a.
 Proof.
-  pose proof HH as HH0. destruct HH as [HS [Hsg [Hds [Hne [Hpre [Hun [Hnl [Hn [HF [HrF [Hprod Ha]]]]]]]]]]].
+  pose proof HH as HH0. destruct HH as [HS [Hsg [Hds [Hne [Hpre [Hun [Hn [HF [HrF [Hprod Ha]]]]]]]]]].
   set (neg := beq sg [45%N]) in *. set (k := if is_bit un then 3 else 0) in *.
-  unfold spec_eval. rewrite (ex_magnitude _ _ _ _ _ _ _ _ _ _ HH0). change (beq sg [45%N]) with neg.
-  pose proof (ex_repr_n _ _ _ _ _ _ _ _ _ _ HH0) as Rn. unfold repr53b in Rn. apply Z.leb_le in Rn.
+  unfold spec_eval. rewrite (ex_magnitude _ _ _ _ _ _ _ _ _ HH0). change (beq sg [45%N]) with neg.
+  pose proof (ex_repr_n _ _ _ _ _ _ _ _ _ HH0) as Rn. unfold repr53b in Rn. apply Z.leb_le in Rn.
   pose proof (odd_part_spec n) as Sn. destruct (odd_part n) as [qn jn]. destruct Sn as [Hjn [Hpn Hon]].
   pose proof (odd_part_spec F) as Sf. pose proof HrF as RF. unfold repr53b in RF.
   destruct (odd_part F) as [qf jf] eqn:EF. destruct Sf as [Hjf [Hpf Hof]]. cbn [fst snd] in *. apply Z.leb_le in RF.
-  destruct (ex_bounds _ _ _ _ _ _ _ _ _ _ HH0) as [Bn Bf]. pose proof (ex_prod _ _ _ _ _ _ _ _ _ _ HH0) as P. change (if is_bit un then 3 else 0) with k in P.
+  destruct (ex_bounds _ _ _ _ _ _ _ _ _ HH0) as [Bn Bf]. pose proof (ex_prod _ _ _ _ _ _ _ _ _ HH0) as P. change (if is_bit un then 3 else 0) with k in P.
   assert (Dn : dig n <= 56) by (apply dig_le_of_lt; lia).
   assert (DF : dig F <= 56) by (apply dig_le_of_lt; lia).
   assert (Dqn : dig n = dig qn + jn).
@@ -483,32 +475,32 @@ Proof.
     rewrite Bool.xorb_false_r, <- Final. f_equal. lia.
 Qed.
 
-Theorem exact_when_representable u prefixes sg ds pre un nl n F a :
-  exact_hyps u prefixes sg ds pre un nl n F a ->
-  string_to_bytes (sg ++ ds ++ pre ++ un ++ nl) u false = Ok (NFloat (float_of_small_int (beq sg [45%N]) a)) /\
-  string_to_bytes (sg ++ ds ++ pre ++ un ++ nl) u true = Ok (NInt (if beq sg [45%N] then Zneg a else Zpos a)).
+Theorem exact_when_representable u prefixes sg ds pre un n F a :
+  exact_hyps u prefixes sg ds pre un n F a ->
+  string_to_bytes (sg ++ ds ++ pre ++ un) u false = Ok (NFloat (float_of_small_int (beq sg [45%N]) a)) /\
+  string_to_bytes (sg ++ ds ++ pre ++ un) u true = Ok (NInt (if beq sg [45%N] then Zneg a else Zpos a)).
 Proof.
   intros HH. pose proof HH as HH0.
-  destruct HH as [HS [Hsg [Hds [Hne [Hpre [Hun [Hnl [Hn [HF [HrF [Hprod Ha]]]]]]]]]]].
+  destruct HH as [HS [Hsg [Hds [Hne [Hpre [Hun [Hn [HF [HrF [Hprod Ha]]]]]]]]]].
   assert (NF : numform (sg ++ ds)).
   { exists sg, [], [], ds. repeat split; auto. apply c_digit_is_digit. exact Hds. }
-  assert (E1 : string_to_bytes (sg ++ ds ++ pre ++ un ++ nl) u false = Ok (NFloat (float_of_small_int (beq sg [45%N]) a))).
-  { rewrite app_assoc. rewrite (string_to_bytes_eval u prefixes HS (sg ++ ds) pre un nl false NF Hpre Hun Hnl).
-    destruct (ex_result _ _ _ _ _ _ _ _ _ _ HH0) as [r [Hr ->]]. exact Hr. }
+  assert (E1 : string_to_bytes (sg ++ ds ++ pre ++ un) u false = Ok (NFloat (float_of_small_int (beq sg [45%N]) a))).
+  { rewrite app_assoc. rewrite (string_to_bytes_eval u prefixes HS (sg ++ ds) pre un false NF Hpre Hun).
+    destruct (ex_result _ _ _ _ _ _ _ _ _ HH0) as [r [Hr ->]]. exact Hr. }
   split; [exact E1|].
-  rewrite return_int_is_ceil, E1. unfold float_of_small_int.
+  rewrite return_int_is_ceil, E1. unfold float_of_small_int, ceil_or_ValueError.
   assert (Da : dig a <= 53) by (apply dig_le_of_lt; lia).
-  rewrite ceil_normal by lia. cbn [bind]. f_equal. f_equal.
+  rewrite ceil_normal by lia. f_equal. f_equal.
   change (2 ^ 0) with 1. destruct (beq sg [45%N]); lia.
 Qed.
 
 (* instances of the hypotheses (non-vacuity) *)
-Example exact_3KiB : exact_hyps (lit "IEC") iec_prefixes [] (lit "3") (lit "Ki") (lit "B") [] 3 1024 3072.
+Example exact_3KiB : exact_hyps (lit "IEC") iec_prefixes [] (lit "3") (lit "Ki") (lit "B") 3 1024 3072.
 Proof. unfold exact_hyps. repeat split; try reflexivity; try (vm_compute; tauto); try (vm_compute; congruence). Qed.
-Example exact_minus_16Mbit_SI : exact_hyps (lit "SI") si_prefixes (lit "-") (lit "16") (lit "M") (lit "bit") [10%N] 16 1000000 2000000.
+Example exact_minus_16Mbit_SI : exact_hyps (lit "SI") si_prefixes (lit "-") (lit "16") (lit "M") (lit "bit") 16 1000000 2000000.
 Proof. unfold exact_hyps. repeat split; try reflexivity; try (vm_compute; tauto); try (vm_compute; congruence). Qed.
-Example exact_big_bits : exact_hyps (lit "mixed") mixed_prefixes [] (lit "72057594037927928") [] (lit "b") [] 72057594037927928 1 9007199254740991.
+Example exact_big_bits : exact_hyps (lit "mixed") mixed_prefixes [] (lit "72057594037927928") [] (lit "b") 72057594037927928 1 9007199254740991.
 Proof. unfold exact_hyps. repeat split; try reflexivity; try (vm_compute; tauto); try (vm_compute; congruence). Qed.
 Example exact_3KiB_value :
   string_to_bytes (lit "3KiB") (lit "IEC") true = Ok (NInt 3072).
-Proof. exact (proj2 (exact_when_representable _ _ _ _ _ _ _ _ _ _ exact_3KiB)). Qed.
+Proof. exact (proj2 (exact_when_representable _ _ _ _ _ _ _ _ _ exact_3KiB)). Qed.
